@@ -6,6 +6,7 @@ import (
 	"fmt"
 	"sort"
 	"strings"
+	"sync"
 
 	"github.com/flosch/pongo2/v6"
 
@@ -79,8 +80,47 @@ func mkCtxData(i int) pongo2.Context {
 	return nil
 }
 
+// vshared: a custom tag that uses ExecutionContext.Shared the way a tag may ("all ExecutionContexts share this
+// context"): it records there what it has seen and prints what it finds. Shared is per execution (nil unless the
+// execution was given one), so nothing of one execution may be found there by another.
+type vsharedNode struct{}
+
+func (vsharedNode) Execute(ctx *pongo2.ExecutionContext, w pongo2.TemplateWriter) *pongo2.Error {
+	if ctx.Shared == nil {
+		w.WriteString("[shared:nil]")
+		return nil
+	}
+	k := fmt.Sprint("seen-", ctx.Public["n"])
+	_, had := ctx.Shared[k]
+	ctx.Shared[k] = true
+	w.WriteString(fmt.Sprintf("[shared:%d %v]", len(ctx.Shared), had))
+	return nil
+}
+
+var regOnce sync.Once
+
+func register() {
+	regOnce.Do(func() {
+		pongo2.RegisterTag("vshared", func(doc *pongo2.Parser, start *pongo2.Token, args *pongo2.Parser) (pongo2.INodeTag, *pongo2.Error) {
+			return vsharedNode{}, nil
+		})
+	})
+}
+
 func (c *Case) compile() (*pongo2.Template, px.Out) {
-	set, _ := px.NewSet(c.Files)
+	register()
+	// two loaders: files whose name ends in "2" live behind the second one only, which also holds a shadow of every
+	// other file (never served while the first loader is asked first)
+	first, second := map[string]string{}, map[string]string{}
+	for k, v := range c.Files {
+		if strings.HasSuffix(k, "2") {
+			second[k] = v
+		} else {
+			first[k] = v
+			second[k] = "SHADOW-OF-" + k
+		}
+	}
+	set := pongo2.NewSet("verif", px.NewMemLoader(first), px.NewMemLoader(second))
 	SetGlobals(set)
 	if !c.OptsAfter {
 		set.Options.TrimBlocks = c.Trim
@@ -290,6 +330,7 @@ func programs() []prog {
 		{name: "slice-negative", src: `{{ l|slice:"-2:"|join:"," }}|{{ l|slice:":-1"|join:"," }}|{{ l|slice:"2:"|join:"," }}|{{ s|slice:"-1:" }}|{{ s|slice:"1:5" }}|{{ l|slice:"-5:-1"|join:"," }}`},
 		{name: "filter-param-list", src: `{{ e|default:[n, s, "end"]|join:"/" }}{% for x in e|default:[s, n] %}{{ x }}{% endfor %}{{ [n, s]|join:"-"|upper }}{% if [n]|first > 1 %}big{% endif %}`},
 		{name: "globals-sorted", src: `{% for i in gl sorted %}{{ i }}{% endfor %}|{% for i in gl %}{{ i }}{% endfor %}|{% for x in gs reversed sorted %}{{ x }}{% endfor %}{{ gs|join:"," }}|{% for k, v in gm sorted %}{{ k }}{{ v }}{% endfor %}{{ gl|slice:"1:" }}{{ gl|first }}{{ gs|last }}`},
+		{name: "custom-tag-shared", src: `{% vshared %}{{ n }}{% for i in l %}{% vshared %}{% endfor %}`},
 		{name: "whitespace-dash", src: " a \n{%- if flag -%}\n b \n{%- endif %}\n{{- n -}}\n c "},
 	}
 }
@@ -402,7 +443,11 @@ func init() {
 }
 
 // SetGlobals gives the set data that every execution shares (unsorted lists of the plain slice types)
+// BlockNames returns a fresh copy of the names the ExecuteBlocks operations ask for.
+func BlockNames() []string { return append([]string{}, blockNames...) }
+
 func SetGlobals(set *pongo2.TemplateSet) {
+	register()
 	set.Globals["gl"] = []int{3, 1, 2}
 	set.Globals["gs"] = []string{"b", "c", "a"}
 	set.Globals["gm"] = map[string]int{"z": 1, "y": 2}
